@@ -46,6 +46,13 @@ def configs(tier, lmax=5, singles=True, bases=True, shapes=None, geoms=None):
                 ta, tb = al.type_patterns(2)[(la + 2 * lb + cs) % 4]
                 out.append({"kind": "pair", "la": la, "lb": lb, "ta": ta, "tb": tb, "geom": "generic",
                             "shape": list(shapes[(la + lb + cs) % len(shapes)]), "ic": None, "cs": cs})
+    # aliasing class: two shells of (in general) different angular momentum built on the SAME exponent and
+    # coefficient array objects
+    for la in range(lmax + 1):
+        for lb in range(lmax + 1):
+            ta, tb = al.type_patterns(2)[(2 * la + lb) % 4]
+            out.append({"kind": "pair", "la": la, "lb": lb, "ta": ta, "tb": tb, "geom": "generic" if (la + lb) % 3 else "coincident",
+                        "shape": [2, 2, 1, 2, 2, 1], "ic": None, "alias": 1})
     if singles:
         for l in range(lmax + 1):
             for K in ([1, 2] if tier == "quick" else [1, 2, 3, 4]):
@@ -76,6 +83,9 @@ def close_configs(lmax):
 
 
 def build(cfg, originA=False):
+    from . import core
+
+    core.ALIAS_POOL = {} if cfg.get("alias") else None
     tier = "thorough"
     if cfg["kind"] == "pair":
         Ka, Ma, pa, Kb, Mb, pb = cfg["shape"]
@@ -85,6 +95,10 @@ def build(cfg, originA=False):
         tb_ = (cfg["la"] + cfg["lb"] + Kb + pa) % 4 == 0
         a = al.shell(cfg["la"], A, Ka, Ma, cfg["ta"], pat=pa, rot=0, tier=tier, tabulated=ta_)
         b = al.shell(cfg["lb"], A, Kb, Mb, cfg["tb"], pat=pb, rot=1, tier=tier, tabulated=tb_)
+        if cfg.get("alias"):  # identical parameter values, so that the pool hands both shells the same objects
+            a = al.shell(cfg["la"], A, Ka, Ma, cfg["ta"], pat=1, rot=0, tier=tier)
+            b = al.shell(cfg["lb"], A, Ka, Ma, cfg["tb"], pat=1, rot=0, tier=tier).with_(exps=a.exps, coeffs=a.coeffs)
+            # exponents valid for both angular momenta: the (0.35, 2.9) pattern
         ea, eb = min(a.exps), min(b.exps)
         xa, xb = max(a.exps), max(b.exps)
         B = al.add(A, al.displacement(cfg["geom"], mu=ea * eb / (ea + eb), mu_max=xa * xb / (xa + xb)))
